@@ -98,6 +98,12 @@ def check_encode(ctx, F, A):
                 if isinstance(v, VInt):
                     rec["num_1b"] = st.const_of(v.lin)
             obs.append(rec)
+        if callee.get("trait") == "std::iter::Iterator" and callee.get("method") == "next":
+            n1 = [d["place"]["local"] for d in frame.body["debug"] if d["name"] == "num_1b" and not d["place"]["proj"]]
+            for l in n1:
+                v = st.mem.get(("L", frame.fid, l))
+                if isinstance(v, VInt):
+                    obs.append({"method": "next", "num_1b": st.interval(v.lin), "line": frame.body["blocks"][bb]["tspan"]["line"]})
         r = callee.get("resolved") or callee
         if r["def"].endswith("::checksum"):
             obs.append({"method": "checksum", "slice": args[1], "st": st.copy(), "line": frame.body["blocks"][bb]["tspan"]["line"]})
@@ -139,6 +145,15 @@ def check_encode(ctx, F, A):
     if not ok:
         ctx.violation("R-C07-CONST", "encode|escape", where, "the escape sequence 1b1b1b1b must be inserted exactly after the 4th consecutive 0x1b "
                       "(observed counters %r)" % ([o.get("num_1b") for o in esc],))
+    # the run counter is back below 4 whenever the next payload byte is fetched (so every 4th 1b of a long run is escaped)
+    ctx.rule("R-C07-ESC", "at every fetch of the next payload byte the 1b-run counter lies in 0..3: it is reset after each inserted escape")
+    nx = [o for o in obs if o["method"] == "next"]
+    ctx.count("R-C07-ESC", len(nx))
+    ok = bool(nx) and all(o["num_1b"][0] is not None and o["num_1b"][0] >= 0 and o["num_1b"][1] is not None and o["num_1b"][1] <= 3 for o in nx)
+    ctx.oblig(ok)
+    if not ok:
+        ctx.violation("R-C07-ESC", "encode|counter", where, "the 1b-run counter is not confined to 0..3 between payload bytes (ranges %r): after "
+                      "an inserted escape the count must restart, else longer runs are not escaped" % ([o["num_1b"] for o in nx][:3],))
     ends = [o for o in ext if o.get("consts") and len(o["consts"]) == 6 and list(o["consts"][:5]) == END5]
     ok = bool(ends)
     ctx.oblig(ok)
